@@ -139,6 +139,8 @@ type Spec struct {
 	Flag bool   `json:"Flag"`
 	L    int    `json:"L"` // -1 nil, else length
 	M    int    `json:"M"` // -1 nil, else size
+	// the zero time.Time (year 1): its UnixNano is outside the representable range and wraps
+	TmZero bool `json:"tmzero,omitempty"`
 }
 
 func unhexs(s string) string {
@@ -154,6 +156,9 @@ func (sp *Spec) build() *T {
 		A: sp.A, B: sp.B, F: math.Float64frombits(sp.F), G: math.Float32frombits(sp.G),
 		S: unhexs(sp.S), Tm: time.Unix(0, sp.Tm).UTC(), I8: sp.I8, U16: sp.U16,
 		Emb: Emb{Y: int(sp.Y), Z: unhexs(sp.Z)}, Flag: sp.Flag,
+	}
+	if sp.TmZero {
+		t.Tm = time.Time{}
 	}
 	if sp.HasP {
 		t.P = &Inner{X: sp.X, W: unhexs(sp.W)}
